@@ -164,6 +164,10 @@ def run(ck):
     # ---- R5 / R6 -------------------------------------------------------------------------------------------------------
     c04.r2_single_caller(ck, rule="C06-R5")
     c05.r4(ck, par, rule="C06-R6")
+    # run-ahead patches are undone newest-first, and only forgotten once undone (what a worker applied past the failing patch must
+    # leave no trace, whichever schedule let it get that far)
+    c04.r3_lifo(ck, rule="C06-R9")
+    c04.r3b_pop_after_rollback(ck, rule="C06-R9")
 
     # ---- R7 conflicting effects in one parallel region ---------------------------------------------------------------------
     for site, cl, agg in launches:
